@@ -119,7 +119,7 @@ theorem C12_norm_repeated (cfg : Cfg) (c : Cls) (x y : Val) (xs : List Val) :
 /-- **C12 (attributes).**  A record with an `@` key holding text or a number -- after any number of
 XML-shaped entries, whatever follows -- cannot be exported: `to_xml` raises `NotImplementedError`
 (the branch "Export of attibtures is not supported yet").  So `xmltodict`'s attribute convention
-is outside the writer, and `xmlShaped` rightly admits names only. -/
+is outside the writer, and `xmlShaped` rightly allows names only. -/
 theorem C12_attribute_not_implemented (o : Opts) (c c' : Cls) (r k : Str) (pre rest : List (Str × Val)) (v : Val)
     (hn : keysNodup pre = true) (hs : shapedKvs true pre = true) (hv : isScalarVal v = true) :
     toXml Cfg.gen o (.dict c [(r, .dict c' (pre ++ ('@' :: k, v) :: rest))]) = .error .NotImplementedError :=
